@@ -9,6 +9,7 @@ CONSTANTS
     TickSteps = {1}
     NProofs = 1
     TsChoices = {0, 1, 3, 5, 6}
+    FarChoices = {"near"}
     NonceIds = {1}
     ShareNonces = FALSE
     KidChoices = {"k1"}
